@@ -212,6 +212,41 @@ def directed_kw_programs(rng):
     return out
 
 
+def directed_nested_programs(rng):
+    """value-dependent types nested under | and & so that the outer combination's direct members hold no value-dependent
+    type, or so that arms of different bounds sit next to each other in either order: the shapes where 'is this annotation
+    value-dependent', 'which bound guards which check' and 'which arm admitted the value' can come apart.  Every program
+    has the nested method, a method on object to fall through to and sometimes a plain class method; the calls cover
+    every arm's bound, inside and outside the condition."""
+    vals = [1, 2, 3, 7, "a", "ab", "zz", [1], (1, "a"), None]
+    encs = [enc_val(v) for v in vals]
+    out = []
+    for variant in range(2):
+        # P, Q on int; S, T on str; the truth tables also say True on values outside the bound (never to be asked)
+        outside = encs if variant == 0 else []
+        def tt(inside):
+            return [enc_val(v) for v in inside] + [e for e in outside if e not in [enc_val(v) for v in inside] and rng.random() < 0.6]
+        utab = {10: tt([1, 3]), 11: tt([3, 7]), 12: tt(["a", "ab"]), 13: tt(["ab", "zz"])}
+        P, Q, S, T = [9, 10, [0, INT]], [9, 11, [0, INT]], [9, 12, [0, STR]], [9, 13, [0, STR]]
+        L = [8, [0, INT], enc_val(2), enc_val(7)]
+        I, St, Li = [0, INT], [0, STR], [0, LIST]
+        shapes = [
+            [2, [3, P, Q], S], [2, S, [3, P, Q]], [2, [3, Q, P], St], [2, St, [3, P, Q]],
+            [2, I, [3, St, S]], [2, [3, St, S], I], [2, [3, S, T], I], [2, Li, [3, S, St]],
+            [3, [2, P, S], [2, Q, T]], [3, [2, S, P], I], [2, [3, P, L], S], [2, [2, [3, P, Q], S], Li],
+            [2, [3, [2, P, S], [2, Q, St]], Li], [3, [2, I, S], [2, P, St]],
+        ]
+        for sh in shapes:
+            for extra in (None, I, St):
+                defs = [{"id": 0, "pos": [sh], "npos_req": 1, "kw": [], "prio": 0},
+                        {"id": 9, "pos": [[0, 0]], "npos_req": 1, "kw": [], "prio": 0}]
+                if extra is not None:
+                    defs.insert(1, {"id": 1, "pos": [extra], "npos_req": 1, "kw": [], "prio": 0})
+                out.append({"spec": [], "defs": defs, "utab": {str(k): v for k, v in utab.items()},
+                            "calls": [{"vals": [e]} for e in encs]})
+    return out
+
+
 def slot_args(vals):
     return [[[0, i], v] for i, v in enumerate(vals)]
 
